@@ -128,16 +128,23 @@ func (a *accountsProvider) pick(indices []phase0.ValidatorIndex) map[phase0.Vali
 	}
 	return out
 }
+// active drops the validators that have exited.
+func (a *accountsProvider) active(in map[phase0.ValidatorIndex]e2wtypes.Account) map[phase0.ValidatorIndex]e2wtypes.Account {
+	for _, v := range a.m.P.Exited {
+		delete(in, phase0.ValidatorIndex(v))
+	}
+	return in
+}
 func (a *accountsProvider) ValidatingAccountsForEpoch(_ context.Context, _ phase0.Epoch) (map[phase0.ValidatorIndex]e2wtypes.Account, error) {
 	simrt.Yield("accounts/forEpoch")
-	return a.pick(nil), nil
+	return a.active(a.pick(nil)), nil
 }
 func (a *accountsProvider) ValidatingAccountsForEpochByIndex(_ context.Context, _ phase0.Epoch, indices []phase0.ValidatorIndex) (map[phase0.ValidatorIndex]e2wtypes.Account, error) {
 	simrt.Yield("accounts/forEpochByIndex")
 	if indices == nil {
 		indices = []phase0.ValidatorIndex{}
 	}
-	return a.pick(indices), nil
+	return a.active(a.pick(indices)), nil
 }
 func (a *accountsProvider) SyncCommitteeAccountsForEpoch(_ context.Context, _ phase0.Epoch) (map[phase0.ValidatorIndex]e2wtypes.Account, error) {
 	simrt.Yield("accounts/syncForEpoch")
@@ -294,9 +301,14 @@ func syncVals(duty *synccommitteemessenger.Duty) []int {
 	return out
 }
 func (m *recSyncMessenger) Prepare(ctx context.Context, duty *synccommitteemessenger.Duty) error {
-	m.r.addInv(&Invocation{Kind: "sync-prepare", Slot: uint64(duty.Slot()), Validators: syncVals(duty), Inc: simrt.CurrentInc(), Step: simrt.Step(), T: simrt.Now()})
+	inv := &Invocation{Kind: "sync-prepare", Slot: uint64(duty.Slot()), Validators: syncVals(duty), Inc: simrt.CurrentInc(), Step: simrt.Step(), T: simrt.Now()}
+	m.r.addInv(inv)
 	if m.inner != nil {
-		return m.inner.Prepare(ctx, duty)
+		err := m.inner.Prepare(ctx, duty)
+		if err == nil {
+			inv.EndStep, inv.EndT = simrt.Step(), simrt.Now()
+		}
+		return err
 	}
 	simrt.Yield("rec/syncprepare")
 	return nil
@@ -611,6 +623,13 @@ func Run(ctx context.Context, p *Plan, hooks *Hooks) *Record {
 		syncDomainType := DomainSyncCommittee
 		rec.Signer.Fault = func(r *SignReq) (string, time.Duration) {
 			if r.KeyIndex == p.SyncZeroSig && r.Method == "SignGenericMulti" && len(r.Domain) == 32 && string(r.Domain[:4]) == string(syncDomainType[:]) {
+				if p.SyncZeroOnce {
+					g := m.Chain.GenesisTime.Sub(SimEpoch)
+					if now := simrt.Now(); now < g || uint64((now-g)/(time.Duration(p.SecondsPerSlot)*time.Second)) != p.SyncZeroSlot {
+						return "", 0
+					}
+				}
+				simrt.Probe("fault:sync-message-signature-withheld")
 				return "zero", 0
 			}
 			return "", 0
